@@ -78,6 +78,12 @@ def cases(tier, seed):
             for gap in (None, 0, 1, 128):
                 for li, lst in enumerate(lists):
                     yield {"k": "read", "files": lst, "nl": nl, "dl": dl, "gap": gap, "blank": 128 if (nl + dl) % 2 == 0 else 0}
+    for gap in (1, 2, 16, 128):
+        for blank in (0, 128):
+            for flag in (0x00, 0xFF):
+                for lst in (lists[1], lists[2]):
+                    yield {"k": "read", "files": lst, "nl": 128, "dl": 128, "gap": gap, "blank": blank, "gapflag": flag}
+    yield {"k": "read", "files": lists[2], "nl": 128, "dl": 128, "gap": None, "blank": 128, "gapflag": 0xFF}
     for chunk in (1, 2, 100, 254):
         yield {"k": "read", "files": [ALPHA[2], ALPHA[6]], "nl": 128, "dl": 128, "gap": None, "blank": 128, "chunk": chunk}
 
@@ -103,7 +109,8 @@ def cell_of(case):
         return "write|{}|{}|{}".format(",".join(lenclass(s["n"]) for s in fs) or "none",
                                        ",".join(s["pat"] for s in fs)[:40],
                                        ",".join("t{}d{:02X}{}".format(s["type"], s["dtype"], "g{:02X}".format(s["gaps"]) if "gaps" in s else "") for s in fs))
-    return "read|nl={}|dl={}|gap={}|{}".format(case["nl"], case["dl"], case["gap"], ",".join(lenclass(s["n"]) for s in fs) or "none")
+    return "read|nl={}|dl={}|gap={}{}|{}".format(case["nl"], case["dl"], case["gap"], "" if case.get("gapflag") is None else ".flag{:02X}".format(case["gapflag"]),
+                                                ",".join(lenclass(s["n"]) for s in fs) or "none")
 
 
 def compare_lists(case, listed, kind="cas"):
@@ -161,7 +168,7 @@ def check_case(case):
         else:
             files = [dict(name=s["name"], type=s["type"], dtype=s["dtype"], load=s["load"], exec=s["exec"], data=C.pattern(s["n"], s["pat"]))
                      for s in case["files"]]
-            img = tape.write(files, case["nl"], case["dl"], case["gap"], case.get("blank", 128), case.get("chunk", 255))
+            img = tape.write(files, case["nl"], case["dl"], case["gap"], case.get("blank", 128), case.get("chunk", 255), case.get("gapflag"))
             assert [f["data"] for f in tape.parse(img)] == [f["data"] for f in files]
     except Exception as e:
         t, w = common._raiser(e)
